@@ -21,6 +21,7 @@ import (
 	"strconv"
 	"strings"
 	"sync"
+	"sync/atomic"
 	"time"
 
 	"github.com/miekg/dns"
@@ -186,7 +187,17 @@ func unchanged(after, before *dns.Msg) bool { return reflect.DeepEqual(after, be
 
 // ---------------------------------------------------------------- exec
 
+// exec wraps the ops: a failure on a message that holds a record whose LIBRARY packing skips
+// bytes (candidate finding, notes/C15.md) gets its own stable signature family.
 func exec(op string) vlib.Res {
+	res := exec1(op)
+	if cur != nil && cur.skips && strings.HasPrefix(res.Oracle, "FAIL sig=") && !strings.HasPrefix(res.Oracle, "FAIL sig=harness/") {
+		res.Oracle = "FAIL sig=skipwrite/" + strings.TrimPrefix(res.Oracle, "FAIL sig=")
+	}
+	return res
+}
+
+func exec1(op string) vlib.Res {
 	f := strings.Fields(op)
 	if len(f) < 2 {
 		return vlib.Res{Impl: "bad-op"}
@@ -422,7 +433,9 @@ func execPack() vlib.Res {
 	}
 	under, ref, pristine := rebuild(), rebuild(), rebuild()
 	want := libPack(ref.m)
+	before := atomic.LoadInt64(&foreignCalls)
 	tp := runTryPack(under.m)
+	foreign := atomic.LoadInt64(&foreignCalls) - before
 	tags := []string{"nt", under.class()}
 	impl := "handled=f"
 	if tp.handled {
@@ -438,6 +451,8 @@ func execPack() vlib.Res {
 		or = "FAIL sig=pack/trypack-panicked " + tp.panicked
 	case tp.err != nil:
 		or = "FAIL sig=pack/error-not-from-consumer " + tp.err.Error()
+	case foreign != 0:
+		or = fmt.Sprintf("FAIL sig=pack/foreign-code-ran-inside-the-pooled-packer calls=%d handled=%v", foreign, tp.handled)
 	case !tp.handled && tp.calls != 0:
 		or = "FAIL sig=pack/declined/output-already-produced"
 	case tp.handled && tp.calls != 1:
@@ -1125,6 +1140,7 @@ func facts() map[string]any {
 		"lib_hroom_violations":           lf[1],
 		"lib_sample_records":             lf[2],
 		"lib_sample_messages":            lf[3],
+		"lib_writesall_violations":       lf[4],
 		"puts_after_ok":                  own["puts_after_ok"],
 		"puts_after_err":                 own["puts_after_err"],
 		"puts_after_panic":               own["puts_after_panic"],
